@@ -265,6 +265,10 @@ def remove_SplitSliceRead(op, arch):
         else:
             avgpool_op = create_avgpool_nop(op.name + "_avgpool")
             avgpool_op.add_input_tensor(op.ifm)
+            if op.ofm.equivalence_id == op.ifm.equivalence_id:
+                # A slice that was created as a view of the tensor it is cut from (LSTM features and states) becomes
+                # a tensor of its own when it is materialised by a copy
+                op.ofm.equivalence_id = uuid.uuid4()
             avgpool_op.outputs = [op.ofm]
             op.ofm.ops.remove(op)
             op.ofm.ops.append(avgpool_op)
